@@ -220,6 +220,44 @@ def exactness_check(pid: str, part: str) -> int:
                     case.update(impl=x["impl"][:3000], model=x["model"][:3000])
                     disagreements.append(case)
 
+    # ---- a statement inside a script is analysed as it is on its own (no state carried from the statements before it):
+    # scripts of 2-3 generated statements (many of them bare queries, which report no target) - the holder of each
+    # statement (statement tap) against the holder of the same statement analysed alone, and against the model
+    def only_ok(xs):
+        return [x for x in xs if "skip" not in x and not x["impl"].startswith("ERR")]
+    alone = run(records(stmts[: (120 if quick else 1200)]))
+    idx_ok = [i for i, x in enumerate(alone) if "skip" not in x and not x["impl"].startswith("ERR")]
+    scripts = []
+    for _ in range(60 if quick else 800):
+        if len(idx_ok) < 3:
+            break
+        pick = r.sample(idx_ok, r.choice([2, 2, 3]))
+        if r.random() < 0.6:
+            # make sure bare queries come first: the statement kinds that write nothing
+            pick.sort(key=lambda i: 0 if stmts[i][0] == "query" else 1)
+        scripts.append(pick)
+    sres = run([{"sql": "\n".join(astgen.to_sql(stmts[i]) for i in pick), "dialect": "ansi", "metadata": None, "config": {}, "silent": False,
+                 "origin": "generated-script"} for pick in scripts])
+    dist["in_script_statements"] = 0
+    for pick, x in zip(scripts, sres):
+        if "skip" in x or x["impl"].startswith("ERR"):
+            continue
+        gi, gm = statement_graphs(x["impl"]), statement_graphs(x.get("model", ""))
+        if len(gi) != len(pick):
+            continue
+        for k, i in enumerate(pick):
+            ck.count()
+            dist["in_script_statements"] += 1
+            own = statement_graphs(alone[i]["impl"])[0]
+            proj = dataset_nodes if part == "tables" else (lambda g: g)
+            if proj(gi[k]) != proj(own):
+                spec_failures.append({"suite": "statement-in-script-vs-alone", "script": x["rec"]["sql"], "statement_index": k,
+                                      "statement": astgen.to_sql(stmts[i]), "holder_in_script": proj(gi[k])[:1500], "holder_alone": proj(own)[:1500],
+                                      "spec": "the lineage of a statement is a function of that statement (no metadata: nothing carries over from earlier statements)"})
+            elif k < len(gm) and proj(gi[k]) != proj(gm[k]):
+                disagreements.append({"suite": "T4-statement-in-script", "script": x["rec"]["sql"], "statement_index": k,
+                                      "impl": proj(gi[k])[:1500], "model": proj(gm[k])[:1500]})
+
     # ---- T3-render: the rendering function of Lemma A / Lemma B lays the core fragment out like the parser does ---------
     # (run by C01 and by C02: the theorems of both - and those of C04 C06 C07 C08 C13 C14 built on them - speak about r_stmt)
     if part in ("tables", "columns"):
